@@ -148,6 +148,19 @@ fn main() {
             }
             std::process::exit(0);
         }
+        "DUMPNET" => {
+            // debugging aid: abverif DUMPNET --set "rules=/a/b|;/a/c|" --set url=.. --set source=.. --set type=..
+            let rules: Vec<String> = ctx.extra.get("rules").map(|s| s.split(';').map(|x| x.to_string()).collect()).unwrap_or_default();
+            let url = ctx.extra.get("url").cloned().unwrap_or_default();
+            let source = ctx.extra.get("source").cloned().unwrap_or_else(|| "https://o.org/".into());
+            let ty = ctx.extra.get("type").cloned().unwrap_or_else(|| "image".into());
+            for opt in [false, true] {
+                let e = adblock::Engine::from_rules_parametrised(&rules, Default::default(), true, opt);
+                let rq = adblock::request::Request::new(&url, &source, &ty).unwrap();
+                println!("optimize={} -> {:?}", opt, e.check_network_request(&rq));
+            }
+            std::process::exit(0);
+        }
         other => {
             eprintln!("unknown property {}", other);
             std::process::exit(2);
